@@ -7,6 +7,7 @@ pub mod parser_drive;
 pub mod parsers;
 pub mod renumber_drive;
 pub mod reader_hist;
+pub mod replay_reader;
 pub mod roundtrip;
 pub mod scan_vectors;
 pub mod sink;
